@@ -95,7 +95,8 @@ func (keeper Keeper) GetCustomMsgQuorum(ctx context.Context, defaultQuorum strin
 func getProposalMsgType(proposal v1.Proposal) string {
 	message := proposal.GetMessages()
 	for _, msg := range message {
-		return sdk.MsgTypeURL(msg)
+		// msg is the Any wrapper: its own type URL is google.protobuf.Any, the message type is TypeUrl
+		return msg.TypeUrl
 	}
 	return ""
 }
